@@ -16,7 +16,9 @@ Structs == <<
     [name |-> "S1", fields |-> <<[n |-> "a", t |-> TScalar("int")], [n |-> "b", t |-> TScalar("string")]>>],
     [name |-> "S2", fields |-> <<[n |-> "a", t |-> TScalar("int")]>>],
     [name |-> "S3", fields |-> <<[n |-> "s", t |-> TScalar("S1")], [n |-> "xs", t |-> [b |-> "int", a |-> 1, m |-> 0, ia |-> 0]]>>],
-    [name |-> "S4", fields |-> <<[n |-> "a", t |-> TScalar("float")], [n |-> "b", t |-> TScalar("txt")]>> ] >>
+    [name |-> "S4", fields |-> <<[n |-> "a", t |-> TScalar("float")], [n |-> "b", t |-> TScalar("txt")]>> ],
+    \* a typed-map member: projecting it out of a call mapped over a typed map would nest maps
+    [name |-> "S5", fields |-> <<[n |-> "per", t |-> [b |-> "int", a |-> 0, m |-> 1, ia |-> 0]], [n |-> "n", t |-> TScalar("int")]>> ] >>
 P == [structs |-> Structs]
 UserTypes == {"txt"}
 Builtins == {"int", "float", "string", "bool", "map", "file", "path"}
@@ -80,6 +82,21 @@ Valid(t, v) ==
            [] t.b = "float" -> v.k \in {"int", "float", "big"}
            [] t.b = "bool" -> v.k = "bool"
            [] t.b = "map" -> v.k = "obj"
+
+(* Type.IsValidJson without error (alarms allowed): for backwards compatibility a value of a
+   user-defined file type is never an error, only an alarm; everything else that is not of the
+   declared shape - in particular a struct value that lacks a declared member - is an error *)
+RECURSIVE Accepts(_, _)
+Accepts(t, v) ==
+    IF IsNull(v) THEN TRUE
+    ELSE IF IsArr(t) THEN v.k = "arr" /\ \A i \in DOMAIN v.a : Accepts(Elem(t), v.a[i])
+    ELSE IF IsTMap(t) THEN v.k = "obj" /\ \A x \in DOMAIN v.o : Accepts(Elem(t), v.o[x])
+    ELSE IF IsSt(t) THEN
+        /\ v.k = "obj"
+        /\ \A i \in DOMAIN Fields(P, t) :
+              LET f == Fields(P, t)[i] IN f.n \in DOMAIN v.o /\ Accepts(f.t, v.o[f.n])
+    ELSE IF IsUser(t) THEN TRUE
+    ELSE Valid(t, v)
 
 (* Type.CanFilter *)
 RECURSIVE CanFilter(_)
@@ -215,7 +232,7 @@ SetSeq(S) == IF S = {} THEN <<>> ELSE LET x == CHOOSE x \in S : TRUE IN <<x>> \o
 
 TypeSeq == SetSeq(Types)
 ValRows(t) == LET vs == SetSeq(Values(t)) IN
-    [i \in DOMAIN vs |-> [t |-> t, v |-> vs[i], valid |-> Valid(t, vs[i]),
+    [i \in DOMAIN vs |-> [t |-> t, v |-> vs[i], valid |-> Valid(t, vs[i]), accepts |-> Accepts(t, vs[i]),
                           fv |-> Filter(t, vs[i]).v, ferr |-> Filter(t, vs[i]).err,
                           fatal |-> Filter(t, vs[i]).fatal]]
 RECURSIVE CatRows(_)
